@@ -12,6 +12,13 @@ R  repeated calls (Gen_ExpanderRep): the SAME call 2x / 3x in one piece of text 
    call only / for all but the first / numbered markers; a numbering post_template_fn).  The twin threads
    the hook calls through its state, so output and the exact hook-call sequence come from TLC; TLC also
    checks that n copies of a unit make n times the hook calls of one copy.
+P  positions (Gen_ExpanderPos): the NAME of a named argument is computed ({{t|{{Key}}=v}}: by a template call that the
+   selection of the case selects or not, by a parser function, an argument reference, text next to a call) and the same
+   inner content also sits in a named / positional value, in name AND value, in an argument of an argument, in a
+   template body, in a default; outer call selected / unselected / non-existent.  An expanded call is expanded from its
+   FINAL argument map (names and values fully expanded whatever the selection says about the templates used in them);
+   TLC checks that no name handed to template_fn keeps call syntax and that every (name, map) seen under a selection is
+   also seen when everything is expanded, and predicts output + hook calls for the replay on the real expand().
 """
 from __future__ import annotations
 
@@ -92,6 +99,29 @@ def hook_diff(got, exp):
                        + (f" (the same call was expanded {earlier}x before: every occurrence is a call of its own)" if earlier else ""))
         else:
             res.append(f"{h} was called {len(g)}x for {len(e)} expanded calls")
+    # the argument map: per template name, the k-th call seen against the k-th call expected
+    same_calls = sorted(map(repr, (x[:3] for x in got))) == sorted(map(repr, (x[:3] for x in exp)))   # order-only difference
+    for h in () if same_calls else ("template_fn", "post_template_fn"):
+        names = []
+        for x in exp:
+            if x[0] == h and x[1] not in names:
+                names.append(x[1])
+        for nm in names:
+            pair = next(((g, e) for g, e in zip([x for x in got if x[0] == h and x[1] == nm], [x for x in exp if x[0] == h and x[1] == nm])
+                         if g[2] != e[2]), None)
+            if pair is None:
+                continue
+            g, e = pair
+            extra = [k for k in g[2] if k not in e[2]]
+            lost = [k for k in e[2] if k not in g[2]]
+            raw = [k for k in extra if isinstance(k, str) and "{{" in k]
+            res.append(f"{h} for {{{{{nm}}}}} received the argument map {g[2]!r} instead of the final map {e[2]!r}"
+                       + (f": argument name {raw[0]!r} was handed over unexpanded (names and values of an expanded call are expanded "
+                          f"completely, whatever the selection says about the templates used in them); parameter {lost[0] if lost else '?'!r} stays unbound"
+                          if raw else (f": argument name(s) {extra!r} instead of {lost!r}" if extra or lost else ": other argument values")))
+            break
+        if any("argument map" in x for x in res):
+            break
     if not res:
         same = sorted(map(repr, (x[:2] for x in got))) == sorted(map(repr, (x[:2] for x in exp)))
         res.append("the hooks were called for the same calls in another order" if same and [x[:3] for x in got] != [x[:3] for x in exp]
@@ -185,24 +215,31 @@ def run(tier: str) -> int:
     o = Outcome(PID, tier)
     o.rule = ("each (library, need_pre_expand set, page, selection/switch/hook combination) of Gen_Expander universe C13 is one case; "
               "distinct_nontrivial = distinct (page, options, need) for which at least one call is left unexpanded or a hook fires; "
-              "plus Gen_ExpanderRep: (unit call, shape of repetition, need set, selection, per-call hook policy pair) is one case")
+              "plus Gen_ExpanderRep: (unit call, shape of repetition, need set, selection, per-call hook policy pair) is one case; "
+              "plus Gen_ExpanderPos: (position of the inner content in a call, inner content, outer template, need set, selection, hook policy pair) is one case")
     o.assumptions = ["marker strings returned by the hooks are non-empty and do not start with a list marker",
                      "parser-function first arguments are written without leading blanks (expand() strips them when re-emitting)",
+                     "text that becomes an argument NAME through argument substitution holds no character a name cannot hold (< > [ ] & = \")",
                      "hooks are deterministic functions of (template name, arguments, number of earlier calls of the hook in this expand())"]
     uni = "C13" if tier == "thorough" else "C13Q"
     runi = "C13R" if tier == "thorough" else "C13RQ"
     # the two generators are independent TLC runs: run them side by side
-    with ThreadPoolExecutor(max_workers=1) as pool:
+    puni = "C13P" if tier == "thorough" else "C13PQ"
+    with ThreadPoolExecutor(max_workers=2) as pool:
         fut = pool.submit(tlc, "Gen_ExpanderRep", f"Gen_ExpanderRep_{runi}.cfg", workers=1, timeout=3000)
+        futp = pool.submit(tlc, "Gen_ExpanderPos", f"Gen_ExpanderPos_{puni}.cfg", workers=1, timeout=3000)
         r = tlc("Gen_Expander", f"Gen_Expander_{uni}.cfg", workers=1, timeout=3000)
         rr = fut.result()
+        rp = futp.result()
     o.add_tlc(f"Gen_Expander[{uni}] laws+cases", r)
     o.add_tlc(f"Gen_ExpanderRep[{runi}] repeated calls x per-call hook policies: laws+cases", rr)
-    cases = r.cases + rr.cases
+    o.add_tlc(f"Gen_ExpanderPos[{puni}] computed argument names / position of a call in a call x selections: laws+cases", rp)
+    cases = r.cases + rr.cases + rp.cases
     _G["cases"] = cases
     groups = [g[i:i + 1500] for g in ex.group_cases(cases) for i in range(0, len(g), 1500)]
     results = pmap(replay_chunk, groups, chunk=1)
     rep_shapes = {}
+    pos_shapes = {}
     for ob in results:
         c = cases[ob["idx"]]
         o.evaluations += 1
@@ -212,6 +249,9 @@ def run(tier: str) -> int:
                 o.shape((common.json_key(c["page"]), common.json_key(c["o"]), common.json_key(c["need"])))
             if "shape" in c and ob["nh"]:
                 rep_shapes[c["shape"]] = rep_shapes.get(c["shape"], 0) + 1
+            if "pos" in c and c["o"]["pre"] and (ob["nh"] or "{{" in "".join(c["out"])):
+                k = f"{c['pos']}/{c['inner']}"
+                pos_shapes[k] = pos_shapes.get(k, 0) + 1
             continue
         case = {"lib": {k: tr.render_body(v) for k, v in c["lib"].items()}, "need_pre_expand": c["need"], "page": ob["src"],
                 "options": c["o"], "expected_out": ob["exp_out"], "got_out": ob["out"], "exception": ob["exc"],
@@ -231,10 +271,13 @@ def run(tier: str) -> int:
                           "model_hooks": ob["exp_hooks"], "real_hooks": ob["hooks"], "note": "order of hook calls between different calls"})
         elif ex.norm_out(ob["out"]) != ob["exp_out"]:
             o.violation(case, f"selective expansion of {ob['src']!r} returned {ob['out']!r}; the specification gives {ob['exp_out']!r}"
-                        + (f" [{hookwhy}]" if hookwhy else ""), cls="out")
+                        + (f" [{hookwhy}]" if hookwhy else "")
+                        + (f" [computed content {c['inner']!r} in position {c['pos']!r} of a call of {c['outer']}: an expanded call is expanded from its "
+                           "final argument map, names and values fully expanded]" if "pos" in c else ""), cls="out")
         else:
             o.violation(case, f"hook calls differ for {ob['src']!r}: {hookwhy}: got {ob['hooks']!r}, specification {ob['exp_hooks']!r}", cls="hooks")
     o.extra["repeated_call_cases_with_hook_calls_by_shape"] = rep_shapes
+    o.extra["position_cases_under_selection_by_position_and_inner_content"] = pos_shapes
     o.exhaustive = True
     mid = cases[len(cases) // 2]
     o.sample({"page": tr.render(mid["page"]), "options": mid["o"], "need": mid["need"], "expected": tr.text(mid["out"]),
@@ -273,4 +316,24 @@ def selftest() -> int:
     bad = [x for x in res if not x["ok"]]
     print(f"repeated calls: {n} expectations without the second copy's hook calls, detected:", len(bad),
           "e.g.", bad[0]["hookwhy"] if bad else None)
-    return 0 if n > 0 and len(bad) == n else 1
+    if not (n > 0 and len(bad) == n):
+        return 1
+    # positions: an expectation in which template_fn is handed the WRITTEN name of a computed argument name must be rejected
+    rp = tlc("Gen_ExpanderPos", "Gen_ExpanderPos_C13PQ.cfg", workers=1)
+    cases = [c for c in rp.cases if c["pos"] == "argname" and c["inner"] == "call" and c["o"]["pre"] and c["o"]["tfn"] == "observe"]
+    m = 0
+    for c in cases:
+        hit = False
+        for h in c["hooks"]:
+            for b in h["args"]:
+                if h["name"] == c["outer"] and b["key"] == ["x"]:
+                    b["key"] = ["{{", "Key", "}}"]
+                    hit = True
+        m += hit
+    cases = [c for c in cases if any(b["key"] == ["{{", "Key", "}}"] for h in c["hooks"] for b in h["args"])]
+    _G["cases"] = cases
+    res = pmap(replay_chunk, ex.group_cases(cases), chunk=1)
+    bad = [x for x in res if not x["ok"]]
+    print(f"positions: {m} expectations with the written argument name in the hook's map, detected:", len(bad),
+          "e.g.", bad[0]["hookwhy"][:200] if bad else None)
+    return 0 if m > 0 and len(bad) == m else 1
